@@ -1,7 +1,7 @@
-(** C02 (round 4) — proofs about get_rc on ITS graphs with pair-valued labels (model/C02_Store.v):
+(** C02 (rounds 4-5) — proofs about get_rc on ITS graphs with pair-valued labels (model/C02_Store.v):
     lock-step agreement of the generic [get_rc_g] with [get_rc_x] on the flattened graph; the centre atoms carry the selected
-    ITS labels UNCHANGED (pairs stay pairs); on a store=True ITS the centre bonds are exactly the changed bonds (H-H bonds are
-    not forced: the H test compares the element with the string "H"). *)
+    ITS labels UNCHANGED (pairs stay pairs); the bonds of the centre for every label shape (a hydrogen is "H" or the pair
+    ("H", "H"): repaired in round 5); the flattened centre of a store=True ITS is the centre of its store=False twin. *)
 From Coq Require Import List NArith ZArith Bool Lia.
 From SK Require Import lib.LGraph lib.C01_GraphLemmas model.C01_Model model.C01_Opts model.C02_Model model.C02_Store
                        proof.C02_Proof proof.C02_Opts.
@@ -136,8 +136,13 @@ Lemma flat_sel K a : flat (selS K a) = sel_attr K (flat a).
 Proof. unfold flat, selS, sel_attr. simpl. rewrite !pick_map. reflexivity. Qed.
 Lemma flat_sel_hh K a : flat (selS_hh K a) = sel_attr_hh K (flat a).
 Proof. unfold flat, selS_hh, sel_attr_hh. simpl. rewrite !pick_map. reflexivity. Qed.
+Lemma fl_el_ish l : ish_lab l = N.eqb (fl_el l) EL_H.
+Proof.
+  destruct l as [e|p q]; simpl; [reflexivity|].
+  destruct (N.eqb p EL_H) eqn:Ep; destruct (N.eqb q EL_H) eqn:Eq; simpl; try reflexivity; rewrite ?Ep; reflexivity.
+Qed.
 Lemma flat_ish a : ish_S a = match x_el (flat a) with Some e => N.eqb e EL_H | None => false end.
-Proof. unfold ish_S, flat. simpl. destruct (n_el a) as [[e|p q]|]; reflexivity. Qed.
+Proof. unfold ish_S, flat. simpl. destruct (n_el a) as [l|]; simpl; [apply fl_el_ish|reflexivity]. Qed.
 Lemma flat_cc a : cc_S a = charge_changed (flat a).
 Proof. reflexivity. Qed.
 
@@ -159,21 +164,70 @@ Proof.
     exists a; (split; [exact La|]); simpl; repeat split; auto.
 Qed.
 
-(** on an ITS all of whose atoms carry a pair as element (store=True) no H-H bond is forced:
-    the centre bonds are exactly the included bonds *)
-Theorem rcS_store_true_bonds K m (g : sits) : wf g ->
-  (forall n a, label g n = Some a -> exists p q, n_el a = Some (Pr p q)) ->
-  forall u v y, adj (get_rc_S K false m g) u v = Some y <->
-                exists x, adj g u v = Some x /\ include_x m x = true /\ y = out_edge x.
+Lemma wf_gmap {A A' B B'} (fn : A -> A') (fe : B -> B') (g : lgraph A B) : wf g -> wf (gmap fn fe g).
 Proof.
-  intros W Hp u v y. unfold adj at 1. rewrite rcS_edges_flat. fold (adj (get_rc_x K false m (gmapn flat g)) u v).
-  rewrite (rcx_edges K false m (gmapn flat g) (wf_gmapn flat g W)).
-  assert (is_hh_x (gmapn flat g) u v = false) as Hh.
-  { unfold is_hh_x, is_h_x. rewrite label_gmapn. destruct (label g u) as [a|] eqn:L; [|reflexivity]. simpl.
-    destruct (Hp u a L) as (p & q & E). unfold flat. simpl. rewrite E. reflexivity. }
-  change (adj (gmapn flat g) u v) with (adj g u v). rewrite Hh. split.
-  - intros (x & A & [[[H|H] ->]|(_ & _ & C & _)]); try discriminate. exists x. auto.
-  - intros (x & A & H & ->). exists x. split; [exact A|]. left. auto.
+  intros W. pose proof (wf_simple W) as Hs. destruct W as (W1 & W2 & _).
+  assert (node_ids (gmap fn fe g) = node_ids g) as En by (unfold node_ids, gmap; simpl; rewrite map_map; reflexivity).
+  apply wf_intro.
+  - rewrite En. exact W1.
+  - rewrite En. intros a b x I. unfold gmap in I. simpl in I. apply in_map_iff in I. destruct I as ([[a' b'] x'] & E & I).
+    inversion E; subst. exact (W2 _ _ _ I).
+  - unfold gmap. simpl. exact (simple_map_attr (fun _ _ x => fe x) Hs).
+Qed.
+
+(** the bonds of the centre, for every option setting and every label shape: a bond is in the centre with the attributes
+    [out_edge] iff it is included (changed, or flagged under keep_mtg) or BOTH ATOMS ARE HYDROGENS — the scalar "H" or the pair
+    ("H", "H") —; under disconnected additionally every other ITS bond between centre atoms, with [out_edge_rec] *)
+Theorem rcS_edges K d m (g : sits) : wf g -> forall u v y,
+  adj (get_rc_S K d m g) u v = Some y <->
+  exists x, adj g u v = Some x /\
+    (((include_x m x = true \/ is_hh_g ish_S g u v = true) /\ y = out_edge x) \/
+     (include_x m x = false /\ is_hh_g ish_S g u v = false /\ d = true /\
+      In u (node_ids (get_rc_S K d m g)) /\ In v (node_ids (get_rc_S K d m g)) /\ y = out_edge_rec x)).
+Proof.
+  intros W u v y. unfold adj at 1. rewrite rcS_edges_flat. fold (adj (get_rc_x K d m (gmapn flat g)) u v).
+  rewrite (rcx_edges K d m (gmapn flat g) (wf_gmapn flat g W)).
+  change (adj (gmapn flat g) u v) with (adj g u v).
+  rewrite (is_hh_fmap snode ish_S flat flat_ish g u v).
+  rewrite <- rcS_flat, node_ids_gmapn. reflexivity.
+Qed.
+
+(** hydrogens of a store=True ITS: both sides of the element pair are "H" *)
+Lemma is_h_emb_S (g : itsS) n :
+  is_h_g ish_S (emb_S g) n = match label g n with Some a => N.eqb (fst (s_el a)) EL_H && N.eqb (snd (s_el a)) EL_H | None => false end.
+Proof.
+  unfold is_h_g, emb_S, gmap, label. simpl. rewrite (assoc_map_val (fun _ (x : inodeS) => sn_of_S x)).
+  destruct (assoc n (gnodes g)) as [x|]; reflexivity.
+Qed.
+
+(** on a store=True ITS (disconnected=False): the centre bonds are the included bonds and the bonds between two atoms whose
+    element pair is ("H", "H") *)
+Theorem rcS_store_true_bonds K m (g : itsS) : wf g -> forall u v y,
+  adj (get_rc_S K false m (emb_S g)) u v = Some y <->
+  exists x, adj g u v = Some x /\
+    (include_x m (x, None) = true \/
+     (exists a b, label g u = Some a /\ label g v = Some b /\ s_el a = (EL_H, EL_H) /\ s_el b = (EL_H, EL_H))) /\
+    y = (x, Some false).
+Proof.
+  intros W u v y.
+  assert (wf (emb_S g)) as W' by (apply wf_gmap; exact W).
+  rewrite (rcS_edges K false m (emb_S g) W').
+  assert (adj (emb_S g) u v = option_map (fun x : iedge => (x, @None bool)) (adj g u v)) as A.
+  { unfold adj, emb_S, gmap. simpl. apply find_edge_map. }
+  assert (is_hh_g ish_S (emb_S g) u v = true <->
+          exists a b, label g u = Some a /\ label g v = Some b /\ s_el a = (EL_H, EL_H) /\ s_el b = (EL_H, EL_H)) as Hh.
+  { unfold is_hh_g. rewrite !is_h_emb_S. split.
+    - intros H. apply andb_true_iff in H. destruct H as [Hu Hv].
+      destruct (label g u) as [a|]; [|discriminate]. destruct (label g v) as [b|]; [|discriminate].
+      apply andb_true_iff in Hu. apply andb_true_iff in Hv. destruct Hu as [U1 U2], Hv as [V1 V2].
+      apply N.eqb_eq in U1, U2, V1, V2. exists a, b. destruct (s_el a), (s_el b). simpl in *. subst. auto.
+    - intros (a & b & -> & -> & -> & ->). reflexivity. }
+  rewrite A. split.
+  - intros (x' & E & [[H ->]|(_ & _ & C & _)]); [|discriminate].
+    destruct (adj g u v) as [x|]; [|discriminate]. simpl in E. inversion E; subst. exists x. split; [reflexivity|]. split; [|reflexivity].
+    destruct H as [H|H]; [left; exact H|right; apply Hh; exact H].
+  - intros (x & E & H & ->). rewrite E. simpl. exists (x, None). split; [reflexivity|]. left. split; [|reflexivity].
+    destruct H as [H|H]; [left; exact H|right; apply Hh; exact H].
 Qed.
 
 (** every atom of a store=True ITS built by C01's construction carries pairs *)
@@ -183,14 +237,54 @@ Proof.
   destruct (assoc n (gnodes g)) as [x|]; [|discriminate]. intros [= <-]. simpl. eauto.
 Qed.
 
-(** witness: an unchanged ("H","H")-("H","H") bond is NOT in the centre of a store=True ITS, while it is in the centre of the
-    store=False twin (the behaviour of the code as it is; see notes/C02.md) *)
+(** * store=True vs store=False: the flattened store=True atom IS the store=False atom when the element is the same on both
+    sides (true for every atom of a reaction) *)
+Lemma flat_twin (a : inodeS) : fst (s_el a) = snd (s_el a) -> flat (sn_of_S a) = xn_of (twin a).
+Proof.
+  intros E. unfold flat, sn_of_S, xn_of, twin. simpl. rewrite <- E.
+  destruct (N.eqb (fst (s_el a)) EL_H); reflexivity.
+Qed.
+
+Definition el_same (g : itsS) : Prop := forall n a, In (n, a) (gnodes g) -> fst (s_el a) = snd (s_el a).
+
+Lemma flat_emb_S (g : itsS) : el_same g -> gmapn flat (emb_S g) = emb (gmap twin (fun e : iedge => e) g).
+Proof.
+  intros Hs. unfold gmapn, emb_S, emb, gmap. simpl. f_equal.
+  - rewrite !map_map. apply map_ext_in. intros [n a] I. simpl. f_equal. apply flat_twin. exact (Hs n a I).
+  - rewrite map_map. apply map_ext. intros [[u v] x]. reflexivity.
+Qed.
+
+(** the centre of the store=True ITS, flattened, is the centre of its store=False twin — for every option setting *)
+Theorem rcS_twin K d m (g : itsS) : el_same g ->
+  gmapn flat (get_rc_S K d m (emb_S g)) = get_rc_x K d m (emb (gmap twin (fun e : iedge => e) g)).
+Proof. intros Hs. rewrite rcS_flat, (flat_emb_S g Hs). reflexivity. Qed.
+
+(** the twin of ITSConstruction.construct(store=True) is ITSConstruction.construct(store=False), for every other option *)
+Lemma twin_construct o G H : gmap twin (fun e : iedge => e) (its_construct_S o G H) = its_construct_o o G H.
+Proof.
+  unfold its_construct_S, its_construct_o, its_construct_gen, gmap. simpl. f_equal.
+  - rewrite map_map. reflexivity.
+  - rewrite map_app, !map_map. f_equal; apply map_ext; intros [[u v] x]; reflexivity.
+Qed.
+
+(** end to end: when every atom has the same element on both sides, get_rc of construct(G, H, store=True), flattened, is
+    get_rc of construct(G, H, store=False) — same atoms, same bonds with the same attributes, reactant-side labels *)
+Theorem rcS_construct K d m o G H : el_same (its_construct_S o G H) ->
+  gmapn flat (get_rc_S K d m (emb_S (its_construct_S o G H))) = get_rc_x K d m (emb (its_construct_o o G H)).
+Proof. intros Hs. rewrite (rcS_twin K d m _ Hs), twin_construct. reflexivity. Qed.
+
+(** witnesses: an unchanged ("H","H")-("H","H") bond IS in the centre of a store=True ITS, as in the store=False twin
+    (before the repair of _is_hh_pair the first centre was empty); a ("H","C") pair is not a hydrogen *)
 Definition hhS_node (n : Z) : inodeS := INS n (2%N, 2%N) (false, false) (0, 0) (0, 0) ([], []) (NA 2%N false 0 0 []) (NA 2%N false 0 0 []).
 Definition hhS : itsS := LG [(1%N, hhS_node 1); (2%N, hhS_node 2)] [(1%N, 2%N, IE 2 2 0)].
-Theorem rcS_hh_not_forced :
-  gnodes (get_rc_S K_default false false (emb_S hhS)) = [] /\
-  length (gnodes (get_rc (gmap twin (fun e : iedge => e) hhS))) = 2%nat.
-Proof. vm_compute. split; reflexivity. Qed.
+Definition hcS_node (n : Z) : inodeS := INS n (2%N, 70%N) (false, false) (0, 0) (0, 0) ([], []) (NA 2%N false 0 0 []) (NA 70%N false 0 0 []).
+Definition hcS : itsS := LG [(1%N, hhS_node 1); (2%N, hcS_node 2)] [(1%N, 2%N, IE 2 2 0)].
+Theorem rcS_hh_forced :
+  node_ids (get_rc_S K_default false false (emb_S hhS)) = [1%N; 2%N] /\
+  adj (get_rc_S K_default false false (emb_S hhS)) 1%N 2%N = Some (IE 2 2 0, Some false) /\
+  node_ids (get_rc (gmap twin (fun e : iedge => e) hhS)) = [1%N; 2%N] /\
+  gnodes (get_rc_S K_default false false (emb_S hcS)) = [].
+Proof. vm_compute. repeat split; reflexivity. Qed.
 
 (** non-vacuity: a store=True ITS with a changed bond and a charge change; labels of the centre are the pairs *)
 Definition exS : itsS :=
@@ -207,4 +301,15 @@ Proof.
   - repeat constructor; simpl; intuition discriminate.
   - intros a b x [E|[]]. inversion E; subst. simpl. intuition discriminate.
   - repeat constructor.
+Qed.
+
+Example C02_store_twin_nonvacuous :
+  el_same exS /\ el_same hhS /\ ~ el_same hcS /\
+  gnodes (gmapn flat (get_rc_S K_default true true (emb_S exS))) <> [].
+Proof.
+  split; [|split; [|split]].
+  - intros n a [E|[E|[]]]; inversion E; reflexivity.
+  - intros n a [E|[E|[]]]; inversion E; reflexivity.
+  - intros Hs. specialize (Hs 2%N (hcS_node 2) (or_intror (or_introl eq_refl))). discriminate.
+  - vm_compute. discriminate.
 Qed.
